@@ -175,3 +175,34 @@ Proof.
            split; [eapply moved_step; eauto|]. split; [exact Hrest|]. split; [constructor; auto|].
            intros x [<-|Hx]; [rewrite ER; right; apply in_or_app; right; now left|]. specialize (Hin x Hx). rewrite ER. destruct Hin as [<-|Hin]; [now left|right; apply in_or_app; now left].
 Qed.
+
+(* ---------- the items an owning iterator hands out are Layer A's: take_ends of the abstract entry list ---------- *)
+Definition dummy_entry : entry := {| ek := {| kid := 0; ktok := 0; kheap := 0 |}; ev := {| vtok := 0; vtag := 0; vheap := 0 |}; es := 0 |}.
+Definition entry_or_dummy (h : heap) (a : addr) : entry := match entry_at h a with Some e => e | None => dummy_entry end.
+
+Lemma live_entry h a : live h a -> entry_at h a = Some (entry_or_dummy h a) /\ kv_at h a = Some (kv (entry_or_dummy h a)).
+Proof.
+  intros (k & v & Hp). unfold entry_or_dummy, entry_at, kv_at, payof in *. destruct (h a) as [n|]; [|discriminate].
+  injection Hp as Hp. rewrite Hp. split; reflexivity.
+Qed.
+Lemma entries_of_live h M : (forall a, In a M -> live h a) -> entries_of h M = map (entry_or_dummy h) M.
+Proof.
+  induction M as [|a M IH]; intros Hl; [reflexivity|]. cbn [entries_of map].
+  destruct (live_entry h a (Hl a (or_introl eq_refl))) as [-> _]. rewrite IH; [reflexivity|]. intros b Hb. apply Hl. now right.
+Qed.
+
+Theorem taking_items_abstract h seal l pat stale : RI h seal l ->
+  exists h', tk_run h (start (rev l) stale) pat = Some (h', map (option_map kv) (fst (take_ends (absl h l) pat))) /\
+             (forall a, In a (snd (take_ends (rev l) pat)) -> live h' a).
+Proof.
+  intros (Hnd & Hc & _ & Hlive).
+  assert (HndL : NoDup (rev l)) by (apply NoDup_rev; now apply NoDup_cons_iff in Hnd as [_ ?]).
+  assert (HliveL : forall a, In a (rev l) -> live h a) by (intros a Ha; apply Hlive; now apply in_rev).
+  destruct (tk_spec pat (rev l) h stale HndL (chain_linked h seal l Hnd Hc) HliveL) as (h' & Hr & _ & Hrest & _ & Hin).
+  exists h'. split; [|exact Hrest]. rewrite Hr. f_equal. f_equal.
+  unfold absl. rewrite (entries_of_live h (rev l) HliveL), take_ends_map. cbn [fst]. rewrite map_map.
+  apply map_ext_in. intros [a|] Ha; [|reflexivity]. cbn [option_map].
+  assert (Hina : In a (rev l)).
+  { apply Hin. unfold somes. apply in_flat_map. exists (Some a). split; [exact Ha|now left]. }
+  now destruct (live_entry h a (HliveL a Hina)) as [_ ->].
+Qed.
